@@ -228,8 +228,10 @@ Section GM.
   Definition gm__update (st : gm_state) : gm_state :=
     let x_old := gm_x st in                                        (* x_old = self.x.copy() *)
     let x := gm_T (if accelerate then gm_z st else gm_x st) in     (* copyto(x, z) when accelerating; step; prox *)
-    let resid := sdiv (vnorm (vsub x x_old)) alpha in              (* norm(x - x_old) / alpha *)
+    let resid := sdiv (vnorm (vsub x x_old)) alpha in              (* resid = norm(x - x_old) / alpha *)
     if accelerate then
+      let rz := sdiv (vnorm (vsub x (gm_z st))) alpha in           (* norm(x - z) / alpha, z = the point stepped from *)
+      let resid := if sleb rz resid then resid else rz in          (* resid = max(resid, rz)   [b > a ? b : a] *)
       let t_old := gm_t st in
       let t := sdiv (sadd s1 (ssqrt (sadd s1 (smul s4 (smul t_old t_old))))) s2 in
       let z := vadd x (vscale (sdiv (ssub t_old s1) t) (vsub x x_old)) in
